@@ -3,6 +3,7 @@
 package req
 
 import (
+	"context"
 	"encoding/json"
 	"encoding/xml"
 	"errors"
@@ -48,22 +49,39 @@ var c18ErrRead = errors.New("c18 body read failure")
 
 // c18Sentinels are the errors scripted stages raise; compared by identity (errors.Is).
 var c18Sentinels = func() []error {
-	l := make([]error, 40)
+	l := make([]error, c18CtxCanceled+1)
 	for i := range l {
 		l[i] = fmt.Errorf("c18 stage error #%d", i)
 	}
+	// an error that wraps context.Canceled, as a transport interrupted by a cancelled context returns
+	// (the context of the request is NOT cancelled: do() looks at the error only)
+	l[c18CtxCanceled] = fmt.Errorf("c18 transport: %w", context.Canceled)
 	return l
 }()
+
+// c18CtxCanceled is the index of the sentinel that wraps context.Canceled (model: Err.ctxCanceled).
+const c18CtxCanceled = 100
+
+var c18ErrOutput = errors.New("c18 output write failure")
 
 // c18ErrName maps an error to the small enum shared with the model.
 func c18ErrName(err error) string {
 	if err == nil {
 		return "-"
 	}
+	if err == context.Canceled || err == context.DeadlineExceeded {
+		return "ctxdone" // r.Context().Err() itself, assigned by do()'s wait
+	}
 	for i, s := range c18Sentinels {
 		if errors.Is(err, s) {
+			if i == c18CtxCanceled {
+				return "ctxcanceled"
+			}
 			return "s" + strconv.Itoa(i)
 		}
+	}
+	if errors.Is(err, c18ErrOutput) {
+		return "output"
 	}
 	var u *c18UnmErr
 	if errors.As(err, &u) {
@@ -125,16 +143,30 @@ var c18ContentTypes = []string{
 	"application/soap+xml; charset=utf-8", "text/plain", "text/html", "application/JSON",
 	"application/XML", "xml/json", "application/jsonxml", "xmljson", "x", "application/octet-stream",
 	"js on", "xm", "jso", "image/svg+xml",
+	// letter case (media types are case-insensitive, RFC 9110 8.3.1; /repo f13c292)
+	"application/Json", "Application/JSON; Charset=UTF-8", "TEXT/XML", "text/Xml", "application/XML+JSON", "APPLICATION/SOAP+XML",
+	"application/jSoN", "X", "XM", "JSO", "image/SVG+XML",
+}
+
+// c18ContentTypesExotic: non-ASCII and invalid UTF-8 around / inside the tokens (in-package lanes
+// only: these do not travel over a real connection). strings.ToLower works rune by rune: the
+// Kelvin sign lower-cases to an ASCII 'k', the dotted capital I to an ASCII 'i', other letters
+// to non-ASCII letters, invalid bytes become U+FFFD.
+var c18ContentTypesExotic = []string{
+	"application/\u212Ajson", "application/JS\u212AON", "text/X\u0130ML", "\u0130xml", "ÄPPLICATION/XML", "application/ÅJSON",
+	"text/xml\xff", "\xffJSON\xfe", "js\xc3on", "X\xe2\x84ML", "ΧML", "ЈSON", "application/xmŁ", "jſon", "JſON", "ｘｍｌ", "ＪＳＯＮ",
+	"application/XML\u212A", "x\u0130ml+JSON",
 }
 
 // c18CtClass is the oracle's own reading of "content types {json, xml, other, none}".
 func c18CtClass(ct string) string {
+	lc := strings.ToLower(ct) // media types are case-insensitive
 	switch {
 	case ct == "":
 		return "none"
-	case strings.Contains(ct, "json"):
+	case strings.Contains(lc, "json"):
 		return "json"
-	case strings.Contains(ct, "xml"):
+	case strings.Contains(lc, "xml"):
 		return "xml"
 	}
 	return "other"
@@ -186,6 +218,19 @@ var c18Checkers = []c18Checker{
 		}
 		return ErrorState
 	}},
+	{"oor", func(r *Response) ResultState { // out-of-range values for some statuses
+		switch {
+		case r.StatusCode%5 == 0:
+			return ResultState(7)
+		case r.StatusCode%7 == 0:
+			return ResultState(-1)
+		case r.StatusCode >= 200 && r.StatusCode <= 299:
+			return SuccessState
+		case r.StatusCode >= 400:
+			return ErrorState
+		}
+		return UnknownState
+	}},
 }
 
 func c18StateName(s ResultState) string {
@@ -197,7 +242,9 @@ func c18StateName(s ResultState) string {
 	case UnknownState:
 		return "U"
 	}
-	return "?" + strconv.Itoa(int(s))
+	// a custom checker may return a value outside the three constants: the library treats it like
+	// UnknownState (neither predicate holds, no switch arm binds) — the lanes check exactly that
+	return "U"
 }
 
 func c18b(b bool) string {
@@ -317,8 +364,10 @@ func TestVerif_C18_bind(t *testing.T) {
 		cached := r.Intn(2) == 0
 		readOK := r.Intn(6) != 0
 		ct := verifh.Pick(r, c18ContentTypes)
-		if r.Intn(10) == 0 {
-			ct = verifh.RandBytes(r, r.Intn(12), "jsonxml/+; -")
+		if x := r.Intn(10); x == 0 {
+			ct = verifh.RandBytes(r, r.Intn(12), "jsonxmlJSONXML/+; -")
+		} else if x == 1 {
+			ct = verifh.Pick(r, c18ContentTypesExotic)
 		}
 		body := verifh.Pick(r, c18Bodies)
 		// scripted unmarshaller outcome (the model's "outcome as a parameter", literally):
@@ -330,12 +379,40 @@ func TestVerif_C18_bind(t *testing.T) {
 			script = 2
 		}
 
+		// response-body transformer (consulted by ToBytes when it really reads): "-" none installed,
+		// "k" accepts, "n<i>" fails with sentinel i returning nil, "b<i>" fails returning the body
+		xf := "-"
+		if r.Intn(4) == 0 {
+			switch x := r.Intn(10); {
+			case x < 4:
+				xf = "k"
+			case x < 7:
+				xf = "n" + strconv.Itoa(5+r.Intn(5))
+			default:
+				xf = "b" + strconv.Itoa(5+r.Intn(5))
+			}
+		}
 		c := C()
 		if ck.fn != nil {
 			c.SetResultStateCheckFunc(ck.fn)
 		}
 		if cE {
 			c.SetCommonErrorResult(&c18C{})
+		}
+		xfCalls := 0
+		if xf != "-" {
+			c.SetResponseBodyTransformer(func(raw []byte, _ *Request, _ *Response) ([]byte, error) {
+				xfCalls++
+				out := append([]byte{}, raw...)
+				if len(xf) < 2 {
+					return out, nil
+				}
+				i, _ := strconv.Atoi(xf[1:])
+				if xf[0] == 'n' {
+					return nil, c18Sentinels[i]
+				}
+				return out, c18Sentinels[i]
+			})
 		}
 		var codecLog []string
 		c.SetJsonUnmarshal(func(b []byte, v interface{}) error {
@@ -448,7 +525,8 @@ func TestVerif_C18_bind(t *testing.T) {
 		if useXML {
 			unmOK = xmlOK
 		}
-		content := hasHTTP && code != 204 && preErr == nil && (cached || readOK)
+		xfFails := len(xf) > 1
+		content := hasHTTP && code != 204 && preErr == nil && (cached || (readOK && !xfFails))
 		wantRes := sT && state == "S" && content && unmOK
 		wantErr := "-"
 		if state == "E" && content && unmOK {
@@ -461,7 +539,7 @@ func TestVerif_C18_bind(t *testing.T) {
 		ok := res == wantRes && errSlot == wantErr && !(res && errSlot != "-")
 		// an unmarshalling failure must surface
 		selected := hasHTTP && code != 204 && ((state == "S" && sT) || (state == "E" && (eT || cE)))
-		if selected && preErr == nil && (cached || readOK) && !unmOK && c18ErrName(err) != "unm" {
+		if selected && preErr == nil && (cached || (readOK && !xfFails)) && !unmOK && c18ErrName(err) != "unm" {
 			ok = false
 		}
 		if !selected && err != nil {
@@ -507,6 +585,9 @@ func TestVerif_C18_bind(t *testing.T) {
 			wantRet = c18ErrName(preErr)
 		case !(cached || readOK):
 			wantRet = "read"
+		case !cached && xfFails:
+			wantRet = "s" + xf[1:]
+			hist.Count("ret=transformer")
 		case !unmOK:
 			wantRet = "unm"
 		}
@@ -517,17 +598,46 @@ func TestVerif_C18_bind(t *testing.T) {
 		if hasHTTP && code == 204 {
 			hist.Count("204")
 		}
-		line := fmt.Sprintf("c18bind %s %d %s %s %s %s %s %s %s %s %s %s", c18b(hasHTTP), code, custom, c18b(sT), c18b(eT), c18b(cE),
-			c18ErrName(preErr), c18b(cached), c18b(readOK), verifh.Hex(ct), c18b(jsonOK), c18b(xmlOK))
+		// the transformer runs exactly when ToBytes really reads and the read succeeds
+		wantXfCalls := 0
+		if selected && preErr == nil && !cached && readOK && xf != "-" {
+			wantXfCalls = 1
+		}
+		if xfCalls != wantXfCalls {
+			ok = false
+		}
+		xfEnc := xf
+		if len(xf) > 1 {
+			xfEnc = xf[:1] + "s" + xf[1:]
+		}
+		line := fmt.Sprintf("c18bind %s %d %s %s %s %s %s %s %s %s %s %s %s", c18b(hasHTTP), code, custom, c18b(sT), c18b(eT), c18b(cE),
+			c18ErrName(preErr), c18b(cached), c18b(readOK), verifh.Hex(ct), c18b(jsonOK), c18b(xmlOK), xfEnc)
 		s.Case(line, impl, ok, "", selected,
-			fmt.Sprintf("status=%d checker=%s ct=%q body=%q targets(s=%v e=%v c=%v) preErr=%s cached=%v readOK=%v script=%d -> %s",
-				code, ck.name, ct, body, sT, eT, cE, c18ErrName(preErr), cached, readOK, script, impl))
+			fmt.Sprintf("status=%d checker=%s ct=%q body=%q targets(s=%v e=%v c=%v) preErr=%s cached=%v readOK=%v script=%d transformer=%s -> %s",
+				code, ck.name, ct, body, sT, eT, cE, c18ErrName(preErr), cached, readOK, script, xf, impl))
 	}
 	// content-type → unmarshaller choice, on its own, over a wider random alphabet
 	for k := 0; k < verifh.N(3000, 50000); k++ {
-		ct := verifh.RandBytes(r, r.Intn(14), "jsonxmlJX/+;= ")
-		if r.Intn(4) == 0 {
+		ct := verifh.RandBytes(r, r.Intn(14), "jsonxmlJSONXML/+;= ")
+		switch r.Intn(6) {
+		case 0:
 			ct = verifh.Pick(r, c18ContentTypes)
+		case 1:
+			ct = verifh.Pick(r, c18ContentTypesExotic)
+		case 2: // random runes: ASCII letters of both cases, the two runes that lower-case into ASCII, others, invalid bytes
+			ct = ""
+			for i, n := 0, r.Intn(10); i < n; i++ {
+				ct += verifh.Pick(r, []string{"j", "s", "o", "n", "x", "m", "l", "J", "S", "O", "N", "X", "M", "L", "\u212A", "\u0130", "Å", "ſ", "\xff", "\xc3", "/", "+"})
+			}
+		}
+		if ct != strings.ToLower(ct) {
+			hist.Count("ctlane=mixed-case")
+		}
+		for i := 0; i < len(ct); i++ {
+			if ct[i] >= 0x80 {
+				hist.Count("ctlane=non-ascii")
+				break
+			}
 		}
 		c := C()
 		var got string
@@ -544,5 +654,5 @@ func TestVerif_C18_bind(t *testing.T) {
 		s.Case("c18ct "+verifh.Hex(ct), got, got == want, "", true, fmt.Sprintf("ct=%q -> %s", ct, got))
 	}
 	s.Finish()
-	hist.need(t, "bound=success", "bound=errorR", "bound=errorC", "ret=unm", "ret=read", "ret=s0", "204", "state=S", "state=E", "state=U", "ct=json", "ct=xml", "ct=other", "ct=none", "ctlane=xml", "ctlane=json")
+	hist.need(t, "bound=success", "bound=errorR", "bound=errorC", "ret=unm", "ret=read", "ret=s0", "ret=transformer", "204", "state=S", "state=E", "state=U", "ct=json", "ct=xml", "ct=other", "ct=none", "ctlane=xml", "ctlane=json", "ctlane=mixed-case", "ctlane=non-ascii")
 }
